@@ -271,6 +271,7 @@ class ClaferDoc:
                 if not m or not stack:
                     raise ExportError(f"Clafer: unreadable attribute value line {body!r}")
                 self.used_attrs.append((m.group(1), m.group(2)))
+                stack[-1][1].setdefault("attr_lines", []).append(m.group(1))
                 continue
             m = _CL_LINE.match(body)
             if not m:
@@ -291,6 +292,20 @@ class ClaferDoc:
             raise ExportError("Clafer: no root clafer")
         if self.instance_of != self.root["name"]:
             raise ExportError(f"Clafer: instance of {self.instance_of!r}, root is {self.root['name']!r}")
+
+    def out_of_scope_attributes(self) -> list[str]:
+        """Clafers that give a value to an attribute they do not have: the attributes are declared in the abstract clafer
+        `AttributedFeature`, so a clafer has them only if it is declared `: AttributedFeature`."""
+        bad: list[str] = []
+
+        def walk(n: dict[str, Any]) -> None:
+            if n.get("attr_lines") and n.get("super") != "AttributedFeature":
+                bad.append(f"{n['raw_name']} sets {n['attr_lines']} without inheriting AttributedFeature")
+            for c in n["children"]:
+                walk(c)
+        if self.root is not None:
+            walk(self.root)
+        return bad
 
     # expressions
     def _parse_expr(self, text: str) -> Any:
